@@ -197,7 +197,12 @@ fn bfs(init: &Init, ops: &[Op], threads: usize, global: &mut HashMap<u64, usize>
 fn traversal_check(v: &IppValue) -> Result<(), String> {
     let want: Vec<&IppValue> = match v {
         IppValue::Array(items) => items.iter().collect(),
-        IppValue::Collection(map) => map.values().collect(),
+        IppValue::Collection(map) => {
+            // member-name order, established here (octet order of the names), not taken from the map's own iteration
+            let mut pairs: Vec<(&String, &IppValue)> = map.iter().collect();
+            pairs.sort_by(|a, b| a.0.as_bytes().cmp(b.0.as_bytes()));
+            pairs.into_iter().map(|p| p.1).collect()
+        }
         other => vec![other],
     };
     let mut it = v.into_iter();
@@ -383,6 +388,49 @@ pub fn run(ctx: &Ctx) -> ! {
     for a in vmc::gen::atoms() {
         let v = to_ipp_scalar(&a);
         traverse_all(&v, &mut st, &json!("atom"));
+    }
+    // collections over tricky member names: every subset of <= 3 of them (the empty name, names differing in case,
+    // by a trailing blank / NUL, by Unicode normalisation, the extremes of the octet order), with a scalar, a set
+    // and a nested collection as member values; built in memory and also read back from the wire
+    let tricky: [&str; 11] = ["", "a", "A", "a ", "a\0", "b", "\u{e9}", "e\u{301}", "\u{10ffff}", "~", " "];
+    for mask in 1u32..(1 << tricky.len()) {
+        if mask.count_ones() > 3 {
+            continue;
+        }
+        let picked: Vec<&str> = tricky.iter().enumerate().filter(|(i, _)| mask & (1 << i) != 0).map(|(_, n)| *n).collect();
+        for shape in 0..3u32 {
+            let members: Vec<(Vec<u8>, Vec<vmc::r1::Val>)> = picked
+                .iter()
+                .enumerate()
+                .map(|(i, n)| {
+                    let vals = match (shape + i as u32) % 3 {
+                        0 => vec![vmc::r1::Val::Int(i as i32)],
+                        1 => vec![vmc::r1::Val::Int(i as i32), vmc::r1::Val::Bool(true)],
+                        _ => vec![vmc::r1::Val::Coll(vec![(n.as_bytes().to_vec(), vec![vmc::r1::Val::Int(7)]), (b"z".to_vec(), vec![vmc::r1::Val::NoValue])])],
+                    };
+                    (n.as_bytes().to_vec(), vals)
+                })
+                .collect();
+            let coll = vmc::r1::Val::Coll(members);
+            let origin = json!({"tricky-members": picked, "shape": shape});
+            let v = to_ipp_value(&[coll.clone()]);
+            traverse_all(&v, &mut st, &origin);
+            st.traces += 1;
+            let k = fnv(format!("{:?}", v).as_bytes());
+            st.states.insert(k);
+            st.nontrivial.insert(k);
+            // the same collection as the parser builds it
+            let mut m = vmc::r1::Msg::new(0x0101, 0, 1);
+            m.groups.push(vmc::r1::Group { tag: vmc::r1::TAG_OPERATION, attrs: vec![vmc::r1::Attr { name: b"c".to_vec(), values: vec![coll] }] });
+            let wire = vmc::r1::encode(&m);
+            if let Ok(parsed) = ipp::parser::IppParser::new(ipp::reader::IppReader::new(std::io::Cursor::new(wire))).parse() {
+                for g in parsed.attributes().groups() {
+                    for a in g.attributes().values() {
+                        traverse_all(a.value(), &mut st, &json!({"tricky-members-parsed": picked, "shape": shape}));
+                    }
+                }
+            }
+        }
     }
     rep.section("value-traversal", st);
     rep.set("alphabet", json!(format!("{} operations: kinds {:?} x names {:?} x values {:?}", ops.len(), KINDS, names.iter().map(|c| *c as char).collect::<Vec<_>>(), values)));
